@@ -13,6 +13,12 @@ def run(ctx):
     # the lazy DFA model of Dfa.v (determinisation, start states, byte-accounted cache with clears, search loops) replays
     # observed call HISTORIES on one cache (M: model = implementation); unanchored results are also compared with the
     # bounded backtracker on the Go side (recorded failing inputs in known/C14dfa.ledger)
+    # the one-pass DFA model (Onepass.v: builder + Search/IsMatch) vs the real onepass.DFA (M: model = implementation incl. whether
+    # Build succeeds, R: implementation = anchored reference with captures, H: the theorems' side conditions hold on every dumped NFA)
+    generic.standard(ctx, ["Props_Onepass"], "onepass-cases", "onepass-model-vs-implementation", lists=("M", "R", "H"), seed=1)
+    # the reverse-NFA construction (Reverse.v = nfa/reverse.go): the model must build the SAME automaton as nfa.Reverse /
+    # nfa.ReverseAnchored (nfa_eqb); Go side: forward accepting paths vs reverse paths / lazy reverse DFA on short haystacks
+    generic.standard(ctx, ["Props_Reverse"], "reverse-cases", "reverse-nfa-model-vs-implementation", lists=("M",), seed=1)
     generic.standard(ctx, ["Props_Dfa"], "dfa-cases", "lazydfa-model-vs-implementation", lists=("M",), seed=1,
                      ledger="known/C14dfa.ledger", timeout=3000)
     ctx.coverage["explanation"] = (
@@ -29,4 +35,12 @@ def run(ctx):
         "pure DFA answer or falls back (cache transparency, capacity irrelevance, history independence), IsMatch = reference, "
         "no-match iff the reference has none, the reported end is an end of the LEFTMOST start (priority among those ends: "
         "PARTIAL), anchored search complete; the model replays observed call histories of the real lazy.DFA on every check. "
-        "One-pass DFA: compared with the anchored reference only.")
+        "One-pass DFA (Onepass.v, OnepassProofs.v): builder (priority-ordered closure, one-pass checks, look handling, dead state 0) and "
+        "Search / IsMatch are modelled; proved for every wf NFA on which the build succeeds and every haystack: Search = the anchored "
+        "reference INCLUDING all capture slots, IsMatch = reference (onepass_search_is_ref, onepass_is_match_is_ref); five original "
+        "behaviours refuted; replayed against the real onepass.DFA on every check. "
+        "Reversed NFA (Reverse.v): a Gallina copy of nfa/reverse.go (both Reverse and ReverseAnchored) builds the same automaton as "
+        "the code on every case; proved for every wf look-free NFA with the compiler's prefix shape: forward accepting path over "
+        "h[i..j) iff reverse path read backwards from j reaches Match at i, leftmost start, no overrun through the unanchored prefix; "
+        "look-around refuted (reverse_look_refuted: the construction turns assertions into epsilons), the original start-loop handling "
+        "refuted.")
